@@ -147,7 +147,7 @@ class BA:
                 if v is self:
                     snap = v.snapshot()
                     val, m = snap.bit, snap.n
-                if isinstance(st, int) and st == 1:
+                if sym.truth(sym.eq(st, 1)):         # (forks for a symbolic step: an explicit step of 1 is a plain, resizable slice)
                     e2 = ite(e < s, s, e)
                     newn = n - (e2 - s) + m
                     self._write(interp, newn, lambda i: _sel3(i < s, old, i, i < s + m, val, i - s, old, i - m + (e2 - s)))
@@ -187,7 +187,7 @@ class BA:
                 st = -st
             if sym.truth(sym.eq(cnt, 0)):
                 return
-            if isinstance(st, int) and st == 1:
+            if sym.truth(sym.eq(st, 1)):             # (forks for a symbolic step; the strided formula below divides by st - 1)
                 self._write(interp, n - cnt, lambda i: _sel2(i < s, old, i, old, i + cnt))
                 return
             def newbit(i, s=s, st=st, cnt=cnt):
